@@ -293,6 +293,16 @@ pub fn v2_err(e: &v2::ParseError) -> Value {
 
 /// One `next()` on a TLV cursor, projected.
 pub fn tlv_item(item: Option<Result<v2::TypeLengthValue<'_>, v2::ParseError>>) -> Value {
+    let flags = item.as_ref().map(|r| (r.is_incomplete(), r.is_complete()));
+    let mut v = tlv_item_inner(item);
+    if let Some((inc, cmp)) = flags {
+        v["inc"] = json!(inc);
+        v["cmp"] = json!(cmp);
+    }
+    v
+}
+
+fn tlv_item_inner(item: Option<Result<v2::TypeLengthValue<'_>, v2::ParseError>>) -> Value {
     match item {
         None => json!({"k": "none"}),
         Some(Ok(t)) => {
@@ -334,7 +344,15 @@ pub fn tlv_walk(mut tlvs: v2::TypeLengthValues<'_>, bound: usize, extra: usize) 
             }
         }
     }
-    json!({"k": "ok", "items": items, "hit_bound": hit_bound})
+    // long walks are logged as their first 40 and last 5 items plus the total count
+    let n = items.len();
+    if n > 50 {
+        let mut kept: Vec<Value> = items[..40].to_vec();
+        kept.extend_from_slice(&items[n - 5..]);
+        items = kept;
+    }
+    let real = n; // number of next() calls made
+    json!({"k": "ok", "items": items, "n": real, "hit_bound": hit_bound})
 }
 
 /// The views of a v2 header: `{"k":"ok", ...}` or `{"k":"panic","which":accessor}`.
